@@ -131,6 +131,7 @@ fn concurrent_crash(tape: &mut Tape, ctx: &RunCtx) -> RunOut {
         clock_small: true,
         sampled_faults: false,
         debris: true,
+        focus: true,
     };
     let mut run = run_conc(tape, &cfg, ctx.detail);
     let mut out = RunOut::default();
